@@ -33,6 +33,7 @@ type vNode struct {
 }
 
 type vCommit struct {
+	seq   int // number of round callbacks seen before this commit callback
 	block *stub.Block
 	raw   interfaces.Block
 	proof []byte
@@ -73,7 +74,7 @@ func newVNode(reg *stub.Registry, committee []interfaces.CommitteeMember, idx in
 
 func (n *vNode) onCommit(ctx context.Context, block interfaces.Block, blockProof []byte) error {
 	b, _ := block.(*stub.Block)
-	n.commits = append(n.commits, &vCommit{block: b, raw: block, proof: blockProof, ctx: ctx})
+	n.commits = append(n.commits, &vCommit{seq: len(n.rounds), block: b, raw: block, proof: blockProof, ctx: ctx})
 	if n.commitErr {
 		return stub.ErrStub
 	}
